@@ -29,6 +29,7 @@ const (
 	vErr           // some non-nil error
 	vRec           // record: struct with (some) known fields
 	vList          // composite literal of constants, e.g. []Purpose{K}
+	vMap           // map literal with constant keys
 )
 
 type value struct {
@@ -36,7 +37,9 @@ type value struct {
 	c    constant.Value
 	rec  map[string]value
 	list []value
-	why  string // for unknown: what could not be folded
+	mkey []value // vMap: keys, parallel to list (values)
+	zero *value  // vMap: zero value of the element type
+	why  string  // for unknown: what could not be folded
 }
 
 func unknown(format string, a ...any) value {
@@ -261,6 +264,19 @@ func (ev *evaluator) stmt(fr *frame, s ast.Stmt) (flow, []value) {
 		return flowNext, nil
 	case *ast.AssignStmt:
 		if len(s.Lhs) != len(s.Rhs) {
+			// comma-ok lookup in a folded map table: v, ok := table[k]
+			if len(s.Lhs) == 2 && len(s.Rhs) == 1 {
+				if ix, ok := s.Rhs[0].(*ast.IndexExpr); ok {
+					m := ev.expr(fr, ix.X)
+					k := ev.expr(fr, ix.Index)
+					if m.k == vMap && k.k == vConst {
+						v, found := mapLookup(m, k)
+						ev.assign(fr, s.Lhs[0], v)
+						ev.assign(fr, s.Lhs[1], cbool(found))
+						return flowNext, nil
+					}
+				}
+			}
 			// tuple assignment from a call
 			if len(s.Rhs) == 1 {
 				if call, ok := s.Rhs[0].(*ast.CallExpr); ok {
@@ -575,6 +591,10 @@ func (ev *evaluator) expr(fr *frame, e ast.Expr) value {
 	case *ast.IndexExpr:
 		x := ev.expr(fr, e.X)
 		i := ev.expr(fr, e.Index)
+		if x.k == vMap && i.k == vConst {
+			v, _ := mapLookup(x, i)
+			return v
+		}
 		if x.k == vList && i.isInt() {
 			if int(i.int()) < len(x.list) && i.int() >= 0 {
 				return x.list[i.int()]
@@ -804,15 +824,32 @@ func (ev *evaluator) packageTable(pv *types.Var) value {
 		return unknown("package-level variable %s is not an init-only literal table", pv.Name())
 	}
 	var elemT types.Type
+	fr := &frame{pkg: pk, env: map[types.Object]value{}}
 	switch u := pv.Type().Underlying().(type) {
 	case *types.Array:
 		elemT = u.Elem()
 	case *types.Slice:
 		elemT = u.Elem()
+	case *types.Map:
+		z := zeroValue(u.Elem())
+		out := value{k: vMap, zero: &z}
+		for _, el := range cl.Elts {
+			kv, ok := el.(*ast.KeyValueExpr)
+			if !ok {
+				return unknown("map table %s has a non-keyed element", pv.Name())
+			}
+			k := ev.expr(fr, kv.Key)
+			v := ev.expr(fr, kv.Value)
+			if k.k != vConst {
+				return unknown("non-constant key in table %s", pv.Name())
+			}
+			out.mkey = append(out.mkey, k)
+			out.list = append(out.list, v)
+		}
+		return out
 	default:
-		return unknown("package-level variable %s is not an array or slice table", pv.Name())
+		return unknown("package-level variable %s is not an array, slice or map table", pv.Name())
 	}
-	fr := &frame{pkg: pk, env: map[types.Object]value{}}
 	var out []value
 	next := 0
 	for _, el := range cl.Elts {
@@ -833,4 +870,16 @@ func (ev *evaluator) packageTable(pv *types.Var) value {
 		next = idx + 1
 	}
 	return value{k: vList, list: out}
+}
+
+func mapLookup(m value, k value) (value, bool) {
+	for i, mk := range m.mkey {
+		if sameValue(mk, k) {
+			return m.list[i], true
+		}
+	}
+	if m.zero != nil {
+		return *m.zero, false
+	}
+	return unknown("missing key"), false
 }
